@@ -42,6 +42,14 @@ func c12Corpus() [][]*SOp {
 			{Op: "SetNode", ID: "n1", Host: true}, {Op: "SetNode", ID: "n2"}, {Op: "Advance", D: 100e9},
 			{Op: "UpdatePeers", ID: "n2", Peers: []string{"n1"}}, {Op: "SetNode", ID: "n1", Host: true},
 			{Op: "Advance", D: 30e9}, {Op: "NodePeers", ID: "n2"}, {Op: "Advance", D: 100e9}, {Op: "NodePeers", ID: "n2"}},
+		{ // statistics right after a link folds a trial balance into a wallet, with no balance write in between
+			{Op: "SetNode", ID: "n1"}, {Op: "SetNode", ID: "n2"}, {Op: "AddNodeBal", ID: "n1", Amount: "5"}, {Op: "AddNodeBal", ID: "n2", Amount: "3"},
+			{Op: "Stats"}, {Op: "AddAcctNode", Acct: "w1", ID: "n1"}, {Op: "Stats"}, {Op: "AddAcctNode", Acct: "w1", ID: "n2"}, {Op: "Stats"},
+			{Op: "AddAcctNode", Acct: "w2", ID: "n1"}, {Op: "Stats"}},
+		{ // peers of different make: a full host with address, kind and payout, and a light client with none of them
+			{Op: "SetNode", ID: "n1", Host: true, Kind: "geth", URI: "enode://n1@10.0.0.1:30303", Payout: "w1", Block: 77}, {Op: "SetNode", ID: "n2"},
+			{Op: "SetNode", ID: "n4", Kind: "parity"}, {Op: "SetNode", ID: "n3"}, {Op: "UpdatePeers", ID: "n3", Peers: []string{"n1", "n2", "n4"}},
+			{Op: "NodePeers", ID: "n3"}, {Op: "Reopen"}, {Op: "NodePeers", ID: "n3"}, {Op: "UpdatePeers", ID: "n2", Peers: []string{"n4", "n1"}}, {Op: "NodePeers", ID: "n2"}},
 		{ // a keep-alive that lists nobody any more: every stored entry ages out together
 			{Op: "SetNode", ID: "n1", Host: true}, {Op: "SetNode", ID: "n3", Host: true}, {Op: "SetNode", ID: "n2"},
 			{Op: "UpdatePeers", ID: "n2", Peers: []string{"n1", "n3"}}, {Op: "Advance", D: 121e9},
@@ -91,6 +99,12 @@ func runC12(ctx *Ctx) {
 					projs[drv] = p
 					cases[drv] = Case{I: 2*j.i + drv, Kind: "seq-" + driverNames[drv], Coq: coq,
 						Desc: storeDesc{Driver: driverNames[drv], Ops: done}}
+					for _, d := range done {
+						if d.Bad != "" {
+							cases[drv].Monitor = append(cases[drv].Monitor, d.Bad+" ("+driverNames[drv]+" driver)")
+							break
+						}
+					}
 				}
 				for k := range projs[0] {
 					if projs[0][k] != projs[1][k] {
@@ -123,6 +137,11 @@ func runC12(ctx *Ctx) {
 		jobs <- job{c, ops}
 	}
 	close(jobs)
+	for drv := 0; drv < 2; drv++ {
+		if i := 2*(nseq+len(corpus)+2) + drv; ctx.Want(i) {
+			reRegisterRace(ctx, i, drv, "c12")
+		}
+	}
 	if i := 2 * (nseq + len(corpus) + 1); ctx.Want(i) {
 		wg.Add(1)
 		go func() { defer wg.Done(); c12NonceWindow(ctx, i) }()
